@@ -186,7 +186,7 @@ class C11:
 
     def gen_case(self, ch):
         feat = set()
-        kind = ch.int(0, 11)
+        kind = ch.int(0, 12)
         lines = []
         exp = []
         decls = ''
@@ -274,6 +274,30 @@ class C11:
             lines.append('printf("@ mc %%ld %%d\\n", (long)%s, (int)sizeof(%s));' % (lit, lit))
             exp.append('mc %d 4' % v)
             feat.add('multichar'); feat.add('simple-escape')
+        elif kind == 12:
+            # floating constants: decimal and hexadecimal spellings x suffixes; value (all bytes), size and type as gcc and clang have them
+            suf = ch.choice(['', '', 'f', 'F', 'l', 'L', 'L'])
+            if ch.int(0, 3) == 0:
+                mant = '0x' + ''.join(ch.choice('0123456789abcdefABCDEF') for _ in range(ch.int(1, 18)))
+                if ch.bool():
+                    mant += '.' + ''.join(ch.choice('0123456789abcdef') for _ in range(ch.int(0, 18)))
+                lim = {'f': 100, 'F': 100, '': 900, 'l': 16000, 'L': 16000}[suf]
+                lit = '%s%s%s%d' % (mant, ch.choice('pP'), ch.choice(['', '+', '-']), ch.choice([0, 1, 10, 63, 64, ch.int(0, lim)]))
+                feat.add('float:hex')
+            else:
+                ip = ''.join(ch.choice('0123456789') for _ in range(ch.int(0, 22)))
+                fp = ''.join(ch.choice('0123456789') for _ in range(ch.int(0 if ip else 1, 25)))
+                lit = ip + ('.' + fp if fp or ch.bool() else '')
+                lim = {'f': 30, 'F': 30, '': 290, 'l': 4900, 'L': 4900}[suf]
+                if ch.bool() or '.' not in lit:
+                    lit += '%s%s%d' % (ch.choice('eE'), ch.choice(['', '+', '-']), ch.choice([0, 1, 5, 20, ch.int(0, lim)]))
+                feat.add('float:dec')
+            lit += suf
+            n = {'f': 4, 'F': 4, '': 8, 'l': 10, 'L': 10}[suf]
+            lines.append('{ __typeof__(%s) v = %s; unsigned char *p = (unsigned char *)&v; int i; printf("@ fc %%d %%d", (int)sizeof(%s), _Generic(%s, float: 1, double: 2, long double: 3, default: 0));'
+                         ' for (i = 0; i < %d; i++) printf(" %%02x", p[i]); printf("\\n"); }' % (lit, lit, lit, lit, n))
+            exp = None
+            feat.add('float:suffix-' + (suf.lower() or 'none'))
         elif kind == 11:
             # a pp-number goes on through every identifier character, ASCII or not: the tail must not be macro-expanded
             tail = ch.choice(['\u00e9', '\u03b1', '\u4e2d', '$', '\U00010437', '_']) + 'zq7'
@@ -291,7 +315,7 @@ class C11:
             lines.append('int %s = %d; printf("@ id %%d %%d\\n", %s, %s + 1);' % (raw, val, raw, ucn if ch.bool() else raw))
             exp.append('id %d %d' % (val, val + 1))
             feat.add('unicode-identifier')
-        nt = (decls + ' '.join(lines)) if feat & {'concatenation', 'ucn', 'hex-escape', 'octal-escape', 'escaped-backslash+escape-like-text', 'unicode-identifier', 'raw-utf8-2', 'raw-utf8-3', 'raw-utf8-4', 'simple-escape'} else None
+        nt = (decls + ' '.join(lines)) if feat & {'concatenation', 'ucn', 'hex-escape', 'octal-escape', 'escaped-backslash+escape-like-text', 'unicode-identifier', 'raw-utf8-2', 'raw-utf8-3', 'raw-utf8-4', 'simple-escape', 'float:dec', 'float:hex'} else None
         return diffprog.Case(decls=decls, body='\n'.join('  ' + l for l in lines) + '\n', expect=exp, nt=nt, tags=sorted(feat))
 
     def example(self, ch, ctx):
